@@ -391,8 +391,13 @@ def run_kani(harnesses, jobs=None, timeout_s=None):
         def lim():
             resource.setrlimit(resource.RLIMIT_AS, (cap, cap))
             os.setsid()
+        env_h = env
+        if h['name'].startswith('h_pool::'):
+            # the pool harnesses run against /repo built with its verification hook (list-based map instead of std's HashMap): own build directory,
+            # so that the regular build of the harness crate (hook off) is not invalidated
+            env_h = dict(env, RUSTFLAGS='--cfg julianschmid_etherparse_verif', CARGO_TARGET_DIR=env['CARGO_TARGET_DIR'] + '-hook')
         try:
-            p = subprocess.Popen(cmd, cwd=kdir, env=env, stdout=subprocess.PIPE, stderr=subprocess.STDOUT, text=True, preexec_fn=lim)
+            p = subprocess.Popen(cmd, cwd=kdir, env=env_h, stdout=subprocess.PIPE, stderr=subprocess.STDOUT, text=True, preexec_fn=lim)
             try:
                 outp, _ = p.communicate(timeout=h.get('timeout', 900)); rc = p.returncode
             except subprocess.TimeoutExpired:
@@ -440,7 +445,7 @@ def parse_kani_old(text, name):
     properties are not failures (a cover `FAILURE` = satisfiable); every other `FAILURE` is a failed check."""
     short = name.split('::')[-1]
     done = re.search(r'(?m)^\*\* (\d+) of (\d+) failed', text)
-    failed = []; checks = 0; cov_sat = cov_tot = 0
+    failed = []; checks = 0; cov_sat = cov_tot = 0; errored = 0
     cur_file = cur_fn = ''
     for line in text.split('\n'):
         hm = re.match(r'^(\S+) function (.+)$', line)
@@ -453,9 +458,11 @@ def parse_kani_old(text, name):
         if re.search(r'\.cover\.\d+$', pid):
             cov_tot += 1; cov_sat += 1 if st == 'FAILURE' else 0; continue
         checks += 1
-        if st != 'SUCCESS':
+        if st == 'FAILURE':
             failed.append({'desc': desc.strip(), 'file': cur_file, 'line': ln, 'in': cur_fn})
-    if not done:
+        elif st != 'SUCCESS':
+            errored += 1          # ERROR / UNKNOWN: the solver gave up (out of memory): nothing is decided
+    if not done or (errored and not failed):
         st = 'no_result'
     else:
         st = 'failed' if failed else 'success'
